@@ -88,6 +88,9 @@ func renderResult(code *encoder.QRCode, width, height, quietZone int) (*gozxing.
 	if input == nil {
 		return nil, gozxing.NewWriterException("IllegalStateException")
 	}
+	if quietZone < 0 {
+		return nil, gozxing.NewWriterException("IllegalArgumentException: invalid margin %d", quietZone)
+	}
 	inputWidth := input.GetWidth()
 	inputHeight := input.GetHeight()
 	qrWidth := inputWidth + (quietZone * 2)
